@@ -244,10 +244,12 @@ def _close(x, y, rtol):
     return float(np.max(np.abs(x.astype(complex) - y.astype(complex)))) <= rtol * scale
 
 
-def tn_dense(tn):
+def tn_dense(tn, outs=None):
     """(sorted outer labels, dense value incl. exponent) by one numpy einsum;
-    None if too large."""
-    out = tuple(sorted(tn.outer_inds(), key=str))
+    None if too large.  ``outs``: explicit output labels (results of
+    simplifiers may carry an output label on several tensors - a hyper label -
+    which outer_inds() no longer lists)."""
+    out = tuple(sorted(tn.outer_inds() if outs is None else outs, key=str))
     size = 1
     for ix in out:
         size *= tn.ind_size(ix)
@@ -273,7 +275,7 @@ def tn_dense(tn):
     return out, val * 10.0 ** float(tn.exponent)
 
 
-def snap(obj, ren=None, dense=True):
+def snap(obj, ren=None, dense=True, outs=None):
     """Snapshot of a result: plain python/numpy structure with no references
     to live quimb objects.  ``ren`` renames uuid labels by first appearance."""
     qtn = _qtn()
@@ -291,7 +293,12 @@ def snap(obj, ren=None, dense=True):
     if isinstance(obj, qtn.TensorNetwork):
         ts = [snap(t, ren) for t in obj.tensor_map.values()]
         props = tuple((k, ren(_plain(getattr(obj, k, None)))) for k in type(obj)._EXTRA_PROPS)
-        outer = tuple(ren(i) for i in obj.outer_inds())
+        if outs is None:
+            outer = tuple(ren(i) for i in obj.outer_inds())
+        else:
+            # expected open labels that are still present + any NEW dangling one
+            outer = tuple(o for o in outs if o in obj.ind_map) + tuple(i for i in obj.outer_inds() if i not in outs)
+            outs = outer
         cnt = {}
         for t in obj.tensor_map.values():
             for ix in t.inds:
@@ -312,7 +319,7 @@ def snap(obj, ren=None, dense=True):
         }
         if dense:
             try:
-                o, v = tn_dense(obj)
+                o, v = tn_dense(obj, outs)
                 d["dense"] = (tuple(ren(i) for i in o), v)
             except Exception as ex:  # pragma: no cover - reported as incomparable
                 d["dense"] = ("<error %s>" % type(ex).__name__, None)
@@ -612,6 +619,11 @@ def _build(ent, rname, variant):
 
     x = dom.build_receiver(rname)
     qtn = _qtn()
+    if variant is not None and variant[0] == "ordperm":
+        # one tensor (numbered as built) stored with permuted axes AND the
+        # tensors inserted in another order
+        permute_tensor(list(x.tensor_map.values())[variant[2]], variant[3])
+        x = reorder_network(x, variant[1])
     if variant is not None and variant[0] == "order":
         x = reorder_network(x, variant[1])
     xt = [x] if isinstance(x, qtn.Tensor) else list(x.tensor_map.values())
@@ -678,6 +690,10 @@ def run_plain(ent, rname, variant, readonly=True):
     fp0 = fingerprint(objs)
     ids0 = tensor_ids(objs)
     out = {"x": x, "fp0": fp0, "objs": objs, "arrs": arrs, "n_xt": [t.ndim for t in xt], "n_at": [t.ndim for t in at], "nt": len(xt)}
+    from . import c03_dom as dom
+
+    dom.seed_everything()  # same global random stream for every run of a cell
+    outer0 = tuple(sorted(x.outer_inds(), key=str)) if isinstance(x, _qtn().TensorNetwork) else None
     try:
         ret = _call(x, ent["plain"], args, dict(kwargs, **ent.get("plain_kw", {})))
         out["status"] = "ok"
@@ -691,7 +707,8 @@ def run_plain(ent, rname, variant, readonly=True):
     if out["status"] == "ok":
         out["alias"] = sorted(ids0 & tensor_ids(ret)) if ret is not None else []
         out["snap"] = snap(ret, Renamer())
-        out["snapL"] = snap(ret)
+        keep = "keep-outer" in ent["flags"] and isinstance(ret, _qtn().TensorNetwork) and isinstance(x, _qtn().TensorNetwork)
+        out["snapL"] = snap(ret, outs=outer0) if keep else snap(ret)
     return out
 
 
@@ -776,6 +793,7 @@ def evaluate(ent, rname, tier):
         freeze(objs2)
         fa0 = fingerprint(objs2)
         iname, ikw = ent["inplace"]
+        dom.seed_everything()
         try:
             ret2 = _call(y, iname, args2, dict(kwargs2, **ikw))
             exc2 = None
@@ -900,10 +918,20 @@ def evaluate(ent, rname, tier):
     if "noorder" not in flags and not isinstance(x, qtn.Tensor):
         for o in orders_for(base["nt"], tier):
             variants.append(("order", o))
+        if "noperm" not in flags and 2 <= base["nt"] <= 3:
+            # insertion order x axis order (a rule like "the tensor visited
+            # first wins, the axis stored second is renamed" needs both):
+            # every order x every tensor reversed (quick) / x every single
+            # tensor permutation (thorough), for networks of <= 3 tensors
+            for o in orders_for(base["nt"], tier):
+                for i, r in enumerate(base["n_xt"]):
+                    ps = perms_for(r, "quick") if tier == "thorough" else ([tuple(range(r))[::-1]] if r > 1 else [])
+                    for p in ps:
+                        variants.append(("ordperm", o, i, p))
     seen_bad = set()
     for v in variants:
-        kind = "axis-order" if v[0] in ("perm", "perm2", "permx", "aperm", "rev") else "insertion-order"
-        if kind in seen_bad:
+        kind = "axis-order" if v[0] in ("perm", "perm2", "permx", "aperm", "rev") else "order-x-axis" if v[0] == "ordperm" else "insertion-order"
+        if kind in seen_bad or (kind == "order-x-axis" and seen_bad):
             continue
         r = run_plain(ent, rname, v, readonly=False)
         n_runs += 1
@@ -1073,6 +1101,7 @@ def run(ctx):
         "receivers": sorted({c["r"] for c in cells}),
         "axis_permutations": "all for rank<=3%s; reversal+rotation+adjacent swaps above; one tensor at a time + all reversed%s"
         % (" and 4" if tier == "thorough" else "", "; + every pair of receiver tensors, and every (receiver tensor, argument tensor) pair, permuted at once with every pair of those permutations" if tier == "thorough" else ""),
+        "order_x_axis": "networks of 2-3 tensors: every insertion order x %s" % ("every single-tensor permutation" if tier == "thorough" else "each tensor reversed"),
         "insertion_orders": "all for n<=3%s; %s above" % (" and 4" if tier == "thorough" else "", "reversal, all rotations, all adjacent swaps" if tier == "thorough" else "reversal+rotation"),
     }
     ctx.notes["discovered_pairs"] = cov["n_pairs"]
